@@ -480,8 +480,39 @@ class UpdaterModel:
                             if nm == x[1] and 1 <= k <= self.dispatch.argc:
                                 upd_ty = self.dispatch.tystr(self.dispatch.locals[k]['ty']).lstrip('&').replace('mut ', '').strip().split('<')[0]
         ctor = None
-        ctors = [b for b in fb.bodies(common.DAEMON)
-                 if b.defkind != 'Closure' and upd_ty and b.tystr(b.locals[0]['ty']).split('<')[0] == upd_ty and b.path != self.dispatch.path]
+        # (the loop may be a method of a per-thread struct that *holds* the updater: the type some function constructs is
+        # then the type of a field on the way to the published fields -- `self.updater.bound` -- and every name gets the prefix)
+        prefix = ''
+        ctors = []
+        if upd_ty:
+            common_pre = None
+            for nm in self.field_of.values():
+                parts = nm.split('.')[:-1]
+                common_pre = parts if common_pre is None else [a for a, b in zip(common_pre, parts) if a == b][:min(len(common_pre), len(parts))]
+            cands = [(upd_ty, '')]
+            t_cur, pre = upd_ty, []
+
+            def adt_by_base(base):
+                for c_ in fb.crates:
+                    for k_, a_ in c_.adts.items():
+                        if k_.split('<')[0] == base and a_.get('variants'):
+                            return a_
+                return None
+            for part in (common_pre or []):
+                adt_ = adt_by_base(t_cur)
+                fld = [f for f in (adt_ or {}).get('variants', [{}])[0].get('fields', []) if f.get('name') == part and 'ty' in f]
+                if not fld:
+                    break
+                t_cur = self.dispatch.crate.types[fld[0]['ty']]['s'].lstrip('&').replace('mut ', '').strip().split('<')[0]
+                pre.append(part)
+                cands.append((t_cur, '.'.join(pre) + '.'))
+            for ty_, pre_ in cands:
+                ctors = [b for b in fb.bodies(common.DAEMON)
+                         if b.defkind != 'Closure' and b.tystr(b.locals[0]['ty']).split('<')[0] == ty_ and b.path != self.dispatch.path
+                         and not (b.argc >= 1 and b.tystr(b.locals[1]['ty']).lstrip('&').replace('mut ', '').strip().split('<')[0] == ty_)]
+                if ctors:
+                    prefix = pre_
+                    break
         # several constructors (`new` delegating to a generic `with_tracker`): the outermost one, which fixes every part
         outer = [b for b in ctors if not any(o is not b and common.reaches_call(fb, o, lambda n, p_=b.path: n == p_) for o in ctors)]
         ctor = (outer or ctors or [None])[-1]
@@ -497,13 +528,13 @@ class UpdaterModel:
         names = [f['name'] for f in adt.get('variants', [{}])[0].get('fields', [])] if adt else []
         fields = {}
         for nm_, fv_ in zip(names, v[3]):
-            self.expand_store(fields, nm_, fv_)        # nested private structs: dotted names, as for the stores
+            self.expand_store(fields, prefix + nm_, fv_)        # nested private structs: dotted names, as for the stores
         # a constructor with several outcomes (it looks at something outside: what a predecessor left in the segment, a
         # file, the environment): a field that differs between them has no constant start value
         for p2 in ps[1:]:
             f2 = {}
             for nm_, fv_ in zip(names, p2.value[3]):
-                self.expand_store(f2, nm_, fv_)
+                self.expand_store(f2, prefix + nm_, fv_)
             for k_ in set(fields) | set(f2):
                 if fields.get(k_) != f2.get(k_):
                     fields[k_] = T('varies', fields.get(k_) or C_NONE, f2.get(k_) or C_NONE)
